@@ -91,7 +91,8 @@ def masks(draw, shape=None, lo=1, hi=10, ring=0, min_unmasked=1):
         h, w = shape
     ih, iw = h - 2 * ring, w - 2 * ring
     assert ih >= 1 and iw >= 1
-    family = draw(st.sampled_from(["bernoulli", "bernoulli", "rects", "disc", "annulus", "bridge", "full"]))
+    family = draw(st.sampled_from(["bernoulli", "bernoulli", "rects", "disc", "annulus", "bridge", "full",
+                                   "frame", "blobs"]))
     m = _blank(ih, iw, True)
     if family == "bernoulli":
         p = draw(st.sampled_from([2, 3, 5, 7, 9]))  # P(unmasked) = p/10
@@ -129,6 +130,22 @@ def masks(draw, shape=None, lo=1, hi=10, ring=0, min_unmasked=1):
         if ih >= 2 and iw >= 2:
             m[0][0] = False
             m[ih - 1][iw - 1] = draw(st.booleans())
+    elif family == "frame":
+        # unmasked rectangular frame (possibly thick) around a masked interior: a hole by construction
+        y0 = draw(st.integers(0, max(0, ih - 3))); y1 = draw(st.integers(min(ih - 1, y0 + 2), ih - 1))
+        x0 = draw(st.integers(0, max(0, iw - 3))); x1 = draw(st.integers(min(iw - 1, x0 + 2), iw - 1))
+        for i in range(y0, y1 + 1):
+            for j in range(x0, x1 + 1):
+                m[i][j] = not (i in (y0, y1) or j in (x0, x1))
+        if draw(st.booleans()) and y1 - y0 >= 4 and x1 - x0 >= 4:
+            m[(y0 + y1) // 2][(x0 + x1) // 2] = False  # island inside the hole
+    elif family == "blobs":
+        # separate components: unmask cells of a coarse checkerboard of blocks
+        by = draw(st.integers(1, 2)); bx = draw(st.integers(1, 2))
+        for i in range(ih):
+            for j in range(iw):
+                cy, cx = i // by, j // bx
+                m[i][j] = not (cy % 2 == 0 and cx % 2 == 0 and draw(st.integers(0, 3)) > 0)
     elif family == "full":
         m = _blank(ih, iw, False)
         for _ in range(draw(st.integers(0, 3))):
